@@ -46,15 +46,15 @@ let eval old toks =
   | ["get_d"; m; e] -> hx ((pick rdpe_get_d rdpe_get_d_old) (rd m e))
   | ["neg"; m; e] | ["neg_eq"; m; e] -> outr (rdpe_neg (rd m e))
   | ["abs"; m; e] | ["abs_eq"; m; e] -> outr (rdpe_abs (rd m e))
-  | ["inv"; m; e] | ["inv_eq"; m; e] -> outr (rdpe_inv (rd m e))
-  | ["sqr"; m; e] -> outr (rdpe_sqr (rd m e))
-  | ["sqr_eq"; m; e] -> outr (rdpe_sqr_eq (rd m e))
-  | ["sqrt"; m; e] | ["sqrt_eq"; m; e] -> outr (rdpe_sqrt (rd m e))
+  | ["inv"; m; e] | ["inv_eq"; m; e] -> outr ((pick rdpe_inv rdpe_inv_old) (rd m e))
+  | ["sqr"; m; e] -> outr ((pick rdpe_sqr rdpe_sqr_old) (rd m e))
+  | ["sqr_eq"; m; e] -> outr ((pick rdpe_sqr_eq rdpe_sqr_old) (rd m e))
+  | ["sqrt"; m; e] | ["sqrt_eq"; m; e] -> outr ((pick rdpe_sqrt rdpe_sqrt_old) (rd m e))
   | ["mul"; a; b; c; d] | ["mul_eq"; a; b; c; d] -> outr ((pick rdpe_mul rdpe_mul_old) (rd a b) (rd c d))
   | ["mul_d"; a; b; d] | ["mul_eq_d"; a; b; d] -> outr ((pick rdpe_mul_d rdpe_mul_d_old) (rd a b) (fl d))
-  | ["mul_2exp"; a; b; i] | ["mul_eq_2exp"; a; b; i] -> outr (rdpe_mul_2exp (rd a b) (z_of_dec i))
-  | ["div_2exp"; a; b; i] | ["div_eq_2exp"; a; b; i] -> outr (rdpe_div_2exp (rd a b) (z_of_dec i))
-  | ["div"; a; b; c; d] | ["div_eq"; a; b; c; d] -> outr (rdpe_div (rd a b) (rd c d))
+  | ["mul_2exp"; a; b; i] | ["mul_eq_2exp"; a; b; i] -> outr ((pick rdpe_mul_2exp rdpe_mul_2exp_old) (rd a b) (z_of_dec i))
+  | ["div_2exp"; a; b; i] | ["div_eq_2exp"; a; b; i] -> outr ((pick rdpe_div_2exp rdpe_div_2exp_old) (rd a b) (z_of_dec i))
+  | ["div"; a; b; c; d] | ["div_eq"; a; b; c; d] -> outr ((pick rdpe_div rdpe_div_old) (rd a b) (rd c d))
   | ["div_d"; a; b; d] | ["div_eq_d"; a; b; d] -> outr (rdpe_div_d (rd a b) (fl d))
   | ["add"; a; b; c; d] ->
       let x = rd a b and y = rd c d in
@@ -91,6 +91,8 @@ let eval old toks =
   | ["csqr_eq"; a; b; c; d] -> outc ((pick cdpe_sqr_eq cdpe_sqr_eq_old) (cd a b c d))
   | ["cmul_e"; a; b; c; d; m; e] -> outc (cdpe_mul_e (cd a b c d) (rd m e))
   | ["cdiv_e"; a; b; c; d; m; e] -> outc (cdpe_div_e (cd a b c d) (rd m e))
+  | ["cmul_2exp"; a; b; c; d; i] | ["cmul_eq_2exp"; a; b; c; d; i] -> outc (cdpe_mul_2exp (cd a b c d) (z_of_dec i))
+  | ["cdiv_2exp"; a; b; c; d; i] | ["cdiv_eq_2exp"; a; b; c; d; i] -> outc (cdpe_div_2exp (cd a b c d) (z_of_dec i))
   | ["cmul_d"; a; b; c; d; x] -> outc (cdpe_mul_d (cd a b c d) (fl x))
   | ["cdiv_d"; a; b; c; d; x] -> outc (cdpe_div_d (cd a b c d) (fl x))
   | ["cpow_si"; a; b; c; d; i] -> outc ((pick cdpe_pow_si cdpe_pow_si_old) (cd a b c d) (z_of_dec i))
